@@ -18,13 +18,13 @@ type Fact struct {
 }
 
 type FuncFacts struct {
-	p     *Prog
-	fn    *ssa.Function
-	nc    map[*ssa.BasicBlock][]Fact
-	busy  map[*ssa.BasicBlock]bool
-	pdom  map[*ssa.BasicBlock]map[*ssa.BasicBlock]bool // pdom[a][b]: b post-dominates a
-	reach map[*ssa.BasicBlock]map[*ssa.BasicBlock]bool
-	mp    map[[2]ssa.Instruction]bool
+	p      *Prog
+	fn     *ssa.Function
+	nc     map[*ssa.BasicBlock][]Fact
+	busy   map[*ssa.BasicBlock]bool
+	pdom   map[*ssa.BasicBlock]map[*ssa.BasicBlock]bool // pdom[a][b]: b post-dominates a
+	reach  map[*ssa.BasicBlock]map[*ssa.BasicBlock]bool
+	mp     map[[2]ssa.Instruction]bool
 	infeas map[*ssa.BasicBlock]bool
 }
 
@@ -1212,46 +1212,60 @@ func phiAlias(phi *ssa.Phi) ssa.Value {
 			if _, isDbg := r.(*ssa.DebugRef); isDbg {
 				continue
 			}
-			if _, isPhi := r.(*ssa.Phi); isPhi {
-				ok = false
-				break
-			}
-			nuse++
-			allowed := map[int]bool{}
-			for i := range phi.Edges {
-				allowed[i] = true
-			}
-			for _, f := range ff.NC(r.Block()) {
-				sib, want, kind := siblingTest(f)
-				if sib == nil || sib.Block() != B || sib == phi {
-					continue
+			var useFacts [][]Fact
+			if rp, isPhi := r.(*ssa.Phi); isPhi {
+				// used by another phi: what is known on the edges that carry it
+				for j, e := range rp.Edges {
+					if e == ssa.Value(phi) {
+						pred := rp.Block().Preds[j]
+						fs := append([]Fact{}, ff.NC(pred)...)
+						if ef, ok := edgeFact(pred, rp.Block()); ok {
+							fs = append(fs, ef)
+						}
+						useFacts = append(useFacts, fs)
+					}
 				}
-				for i := range sib.Edges {
-					if !allowed[i] {
+			} else {
+				useFacts = append(useFacts, ff.NC(r.Block()))
+			}
+			for _, factsHere := range useFacts {
+				nuse++
+				allowed := map[int]bool{}
+				for i := range phi.Edges {
+					allowed[i] = true
+				}
+				for _, f := range factsHere {
+					sib, want, kind := siblingTest(f)
+					if sib == nil || sib.Block() != B || sib == phi {
 						continue
 					}
-					switch kind {
-					case "bool":
-						if c, isC := sib.Edges[i].(*ssa.Const); isC && c.Value != nil && c.Value.Kind() == constant.Bool && constant.BoolVal(c.Value) != want {
-							delete(allowed, i)
+					for i := range sib.Edges {
+						if !allowed[i] {
+							continue
 						}
-					case "nil":
-						st := ff.edgeNilState(sib, i)
-						if st != 0 && (st == 1) != want {
-							delete(allowed, i)
+						switch kind {
+						case "bool":
+							if c, isC := sib.Edges[i].(*ssa.Const); isC && c.Value != nil && c.Value.Kind() == constant.Bool && constant.BoolVal(c.Value) != want {
+								delete(allowed, i)
+							}
+						case "nil":
+							st := ff.edgeNilState(sib, i)
+							if st != 0 && (st == 1) != want {
+								delete(allowed, i)
+							}
 						}
 					}
 				}
-			}
-			if len(allowed) != 1 {
-				ok = false
-				break
-			}
-			for i := range allowed {
-				if res >= 0 && res != i {
+				if len(allowed) != 1 {
 					ok = false
+					break
 				}
-				res = i
+				for i := range allowed {
+					if res >= 0 && res != i {
+						ok = false
+					}
+					res = i
+				}
 			}
 			if !ok {
 				break
